@@ -144,6 +144,9 @@ pub fn install_panic_hook() {
 		} else {
 			"?".into()
 		};
+		if std::env::var("PDBV_BACKTRACE").is_ok() {
+			eprintln!("panic at {loc}: {msg}\n{}", std::backtrace::Backtrace::force_capture());
+		}
 		LAST_PANIC.with(|p| *p.borrow_mut() = Some(format!("{loc}|{msg}")));
 	}));
 }
